@@ -17,7 +17,7 @@ package centrifuge
 //   fire i[,j…]     run pending asynchronous callbacks (concurrently when several)
 //   ping            what the ping timer does (Client.sendPing) when the client is connected
 //   eof             the transport handler's deferred close function
-// Output per op: `fr=<frames> h=<handler log> d=<transport close codes> p=<proceed>`
+// Output per op: `fr=<frames> h=<handler log> d=<transport close codes> p=<proceed> pend=<#parked callbacks>`
 
 import (
 	"bufio"
@@ -204,16 +204,57 @@ func verifC09Tok(tok string) string {
 	return tok
 }
 
-func (s *verifC09Scenario) setup(kv map[string]string) {
-	cfg := Config{LogLevel: LogLevelNone}
-	if n, err := strconv.Atoi(kv["chlimit"]); err == nil && n > 0 {
-		cfg.ClientChannelLimit = n
+// nodes are shared by the scenarios of one run (creating a Node per scenario dominated the run
+// time); the node-level handlers forward to the scenario that is current.
+var verifC09Nodes = map[string]*Node{}
+var verifC09Cur *verifC09Scenario
+
+func verifC09Node(chlimit int, connecting bool) *Node {
+	key := fmt.Sprintf("%d/%v", chlimit, connecting)
+	if n, ok := verifC09Nodes[key]; ok {
+		return n
+	}
+	cfg := Config{LogLevel: LogLevelNone, ClientStaleCloseDelay: 240 * time.Hour}
+	if chlimit > 0 {
+		cfg.ClientChannelLimit = chlimit
 	}
 	node, err := New(cfg)
 	if err != nil {
 		panic(err)
 	}
-	s.node = node
+	if connecting {
+		node.OnConnecting(func(ctx context.Context, e ConnectEvent) (ConnectReply, error) {
+			return verifC09Cur.onConnecting(ctx, e)
+		})
+	}
+	node.OnConnect(func(c *Client) { verifC09Cur.onConnect(c) })
+	if err := node.Run(); err != nil {
+		panic(err)
+	}
+	verifC09Nodes[key] = node
+	return node
+}
+
+func (s *verifC09Scenario) onConnecting(ctx context.Context, e ConnectEvent) (ConnectReply, error) {
+	s.logH("connecting")
+	if err, ok := verifC09Err(s.conn); ok {
+		return ConnectReply{}, err
+	}
+	rep := ConnectReply{ClientSideRefresh: s.csr, ReplyWithoutQueue: s.rwq}
+	switch s.conn {
+	case "nocred":
+	case "expired":
+		rep.Credentials = &Credentials{UserID: "u", ExpireAt: time.Now().Unix() - 10}
+	case "exp":
+		rep.Credentials = &Credentials{UserID: "u", ExpireAt: time.Now().Unix() + 864000}
+	default:
+		rep.Credentials = &Credentials{UserID: "u"}
+	}
+	return rep, nil
+}
+
+func (s *verifC09Scenario) setup(kv map[string]string) {
+	chlimit, _ := strconv.Atoi(kv["chlimit"])
 	s.handlers = map[string]bool{}
 	for _, h := range strings.Split(kv["H"], ",") {
 		if h != "" && h != "-" {
@@ -223,26 +264,27 @@ func (s *verifC09Scenario) setup(kv map[string]string) {
 	s.conn = kv["conn"]
 	s.csr = kv["csr"] == "1"
 	s.rwq = kv["rwq"] == "1"
-	if s.conn != "none" && s.conn != "nonenocred" {
-		node.OnConnecting(func(ctx context.Context, e ConnectEvent) (ConnectReply, error) {
-			s.logH("connecting")
-			if err, ok := verifC09Err(s.conn); ok {
-				return ConnectReply{}, err
-			}
-			rep := ConnectReply{ClientSideRefresh: s.csr, ReplyWithoutQueue: s.rwq}
-			switch s.conn {
-			case "nocred":
-			case "expired":
-				rep.Credentials = &Credentials{UserID: "u", ExpireAt: time.Now().Unix() - 10}
-			case "exp":
-				rep.Credentials = &Credentials{UserID: "u", ExpireAt: time.Now().Unix() + 3600}
-			default:
-				rep.Credentials = &Credentials{UserID: "u"}
-			}
-			return rep, nil
-		})
+	verifC09Cur = s
+	node := verifC09Node(chlimit, s.conn != "none" && s.conn != "nonenocred")
+	s.node = node
+	s.tr = &verifC09Transport{proto: ProtocolTypeJSON}
+	if kv["proto"] == "pb" {
+		s.tr.proto = ProtocolTypeProtobuf
 	}
-	node.OnConnect(func(c *Client) {
+	ctx := context.Background()
+	if s.conn == "none" {
+		ctx = SetCredentials(ctx, &Credentials{UserID: "u"})
+	}
+	c, closeFn, err := NewClient(ctx, node, s.tr)
+	if err != nil {
+		panic(err)
+	}
+	s.client, s.closeFn = c, closeFn
+}
+
+func (s *verifC09Scenario) onConnect(c *Client) {
+	{
+
 		s.logH("connect")
 		if s.handlers["sub"] {
 			c.OnSubscribe(func(e SubscribeEvent, cb SubscribeCallback) {
@@ -256,7 +298,7 @@ func (s *verifC09Scenario) setup(kv map[string]string) {
 					switch res {
 					case "csr":
 						rep.ClientSideRefresh = true
-						rep.Options.ExpireAt = time.Now().Unix() + 3600
+						rep.Options.ExpireAt = time.Now().Unix() + 864000
 					case "past":
 						rep.Options.ExpireAt = time.Now().Unix() - 10
 					}
@@ -390,7 +432,7 @@ func (s *verifC09Scenario) setup(kv map[string]string) {
 					case "past":
 						rep.ExpireAt = time.Now().Unix() - 10
 					case "future":
-						rep.ExpireAt = time.Now().Unix() + 3600
+						rep.ExpireAt = time.Now().Unix() + 864000
 					}
 					cb(rep, nil)
 				})
@@ -409,30 +451,14 @@ func (s *verifC09Scenario) setup(kv map[string]string) {
 					case "past":
 						rep.ExpireAt = time.Now().Unix() - 10
 					case "future":
-						rep.ExpireAt = time.Now().Unix() + 3600
+						rep.ExpireAt = time.Now().Unix() + 864000
 					}
 					cb(rep, nil)
 				})
 			})
 		}
 		c.OnDisconnect(func(e DisconnectEvent) { s.logH(fmt.Sprintf("disconnect:%d", e.Code)) })
-	})
-	if err := node.Run(); err != nil {
-		panic(err)
 	}
-	s.tr = &verifC09Transport{proto: ProtocolTypeJSON}
-	if kv["proto"] == "pb" {
-		s.tr.proto = ProtocolTypeProtobuf
-	}
-	ctx := context.Background()
-	if s.conn == "none" {
-		ctx = SetCredentials(ctx, &Credentials{UserID: "u"})
-	}
-	c, closeFn, err := NewClient(ctx, node, s.tr)
-	if err != nil {
-		panic(err)
-	}
-	s.client, s.closeFn = c, closeFn
 }
 
 func verifC09KV(ws []string) map[string]string {
@@ -559,6 +585,17 @@ func (s *verifC09Scenario) frameBytes(rest string) []byte {
 
 func (s *verifC09Scenario) collect(proceed string, sortFrames bool) string {
 	synctest.Wait()
+	// A spawned close() may sit in unsubscribe's 5 s wait gate (one per reserved channel) while
+	// holding connectMu: let virtual time pass until it is through, so that the op's effects are
+	// complete.
+	for i := 0; i < 12; i++ {
+		if s.client.connectMu.TryLock() {
+			s.client.connectMu.Unlock()
+			break
+		}
+		time.Sleep(5100 * time.Millisecond)
+		synctest.Wait()
+	}
 	s.tr.mu.Lock()
 	fr := s.tr.frames
 	s.tr.frames = nil
@@ -568,6 +605,7 @@ func (s *verifC09Scenario) collect(proceed string, sortFrames bool) string {
 	s.mu.Lock()
 	hl := s.hlog
 	s.hlog = nil
+	npend := len(s.pending)
 	s.mu.Unlock()
 	if sortFrames {
 		sort.Strings(fr)
@@ -579,7 +617,7 @@ func (s *verifC09Scenario) collect(proceed string, sortFrames bool) string {
 		}
 		return strings.Join(xs, ",")
 	}
-	return fmt.Sprintf("fr=%s h=%s d=%s p=%s", j(fr), j(hl), j(cl), proceed)
+	return fmt.Sprintf("fr=%s h=%s d=%s p=%s pend=%d", j(fr), j(hl), j(cl), proceed, npend)
 }
 
 func (s *verifC09Scenario) step(line string) (res string) {
@@ -663,9 +701,9 @@ func TestVerifC09(t *testing.T) {
 		}
 		scenarios[len(scenarios)-1] = append(scenarios[len(scenarios)-1], line)
 	}
-	for _, lines := range scenarios {
-		outs := make([]string, len(lines))
-		synctest.Test(t, func(t *testing.T) {
+	synctest.Test(t, func(t *testing.T) {
+		for _, lines := range scenarios {
+			outs := make([]string, len(lines))
 			var s *verifC09Scenario
 			for i, line := range lines {
 				switch {
@@ -684,14 +722,17 @@ func TestVerifC09(t *testing.T) {
 			if s != nil {
 				_ = s.closeFn()
 				synctest.Wait()
-				time.Sleep(3 * time.Second) // virtual: lets queued dissolver jobs (1 s delay) finish
-				_ = s.node.Shutdown(context.Background())
-				time.Sleep(3 * time.Second)
-				synctest.Wait()
+				time.Sleep(2 * time.Second) // dissolver jobs of this scenario (1 s delay)
 			}
-		})
-		for _, o := range outs {
-			fmt.Fprintln(w, o)
+			for _, o := range outs {
+				fmt.Fprintln(w, o)
+			}
+			w.Flush()
 		}
-	}
+		for _, n := range verifC09Nodes {
+			_ = n.Shutdown(context.Background())
+		}
+		time.Sleep(10 * time.Second)
+		synctest.Wait()
+	})
 }
